@@ -107,8 +107,19 @@ def _run_job(args):
                         except Exception as e:  # replay harness bug is not a verdict
                             o["replay"] = {"confirmed": None, "error": "%s: %s" % (type(e).__name__, e)}
     except core.Unsupported as e:
-        # the contract's instrumentation no longer fits the function (refactored loops, ...): undecided, not a checker crash
+        # the contract's instrumentation no longer fits the function (refactored loops, ...): undecided, not a checker crash -- but
+        # the contract's native replay does not need the instrumentation: a failing concrete input is a violation all the same
         out["unsupported"].append("setup: %s" % e)
+        job = locals().get("job")
+        if job is not None and getattr(job, "replay", None) is not None and job.kind != "B":
+            try:
+                rep = job.replay("(engine undecided)", {})
+            except Exception as e2:  # replay harness bug is not a verdict
+                rep = {"confirmed": None, "error": "%s: %s" % (type(e2).__name__, e2)}
+            if rep and rep.get("confirmed") is True:
+                out["obligations"]["NATIVE/contract-holds-on-the-concrete-replay-inputs"] = {
+                    "status": "failed", "paths": 0, "ms": 0, "model": {}, "note": "engine undecided (%s); native replay of the contract found a failing input" % str(e)[:120],
+                    "replay": rep, "native": True}
     except Exception as e:
         out["errors"].append("job crashed: %s: %s\n%s" % (type(e).__name__, e, traceback.format_exc()[-1500:]))
         # the code under contract (or the harness) raised where the contract expects a normal return: still a checker error as far as
